@@ -115,7 +115,7 @@ func (p Precompile) EmitWithdrawDelegatorRewardsEvent(ctx sdk.Context, stateDB v
 
 	// Prepare the event data
 	var b bytes.Buffer
-	b.Write(cmn.PackNum(reflect.ValueOf(coins[0].Amount.BigInt())))
+	b.Write(cmn.PackNum(reflect.ValueOf(coins.AmountOf(p.stakingKeeper.BondDenom(ctx)).BigInt())))
 
 	stateDB.AddLog(&ethtypes.Log{
 		Address:     p.Address(),
@@ -144,7 +144,7 @@ func (p Precompile) EmitWithdrawValidatorCommissionEvent(ctx sdk.Context, stateD
 
 	// Prepare the event data
 	var b bytes.Buffer
-	b.Write(cmn.PackNum(reflect.ValueOf(coins[0].Amount.BigInt())))
+	b.Write(cmn.PackNum(reflect.ValueOf(coins.AmountOf(p.stakingKeeper.BondDenom(ctx)).BigInt())))
 
 	stateDB.AddLog(&ethtypes.Log{
 		Address:     p.Address(),
